@@ -410,6 +410,20 @@ def c18_run(rep, rng, tier, term):
                 if a is not None and a != b:
                     out.append({'oracle': 'C18.forms', 'case': {'string': w, 'add_erroneous': ae},
                                 'msg': 'parse_graphic_sequence(%r) gives %s but the same items as a list %r give %s' % (w, a, snap, b)})
+        # settings_to_dict on settings whose first item is NOT a decimal number (hand-made, or kept by add_erroneous=True): a terminal
+        # reads no code there, so the state does not move - int() alone would read '+1', '1_0', non-ASCII digits, '-0'
+        for t in ('+1', '\u0663', '1_0', '-0', '+39;x', '1.0', 'x', '+0', '\uff11', '0x1', '1e0'):
+            for prior_codes in ((), (1, 31)):
+                try:
+                    d0 = settings_to_dict(parse_graphic_sequence(list(prior_codes), False)) if prior_codes else {}
+                    snap = {k.name: str(v) for k, v in d0.items()}
+                    d1 = {k.name: str(v) for k, v in settings_to_dict([AnsiSetting(t)], d0).items()}
+                except Exception as e:  # noqa
+                    out.append({'oracle': 'C18.dict.text', 'case': {'setting': t, 'prior': list(prior_codes)}, 'msg': 'raised %r' % e})
+                    continue
+                if d1 != snap:
+                    out.append({'oracle': 'C18.dict.text', 'case': {'setting': t, 'prior': list(prior_codes)},
+                                'msg': 'settings_to_dict([AnsiSetting(%r)], %s) gives %s: the text is no decimal code, a terminal leaves the state at %s' % (t, snap, d1, snap)})
         # a str SUBCLASS stands for the plain string it denotes: an AnsiStr (formatted or not) for its text, as sequence and as item
         from ansi_string import AnsiStr as _AnsiStr
         for w in [x for x in odd_strs if x and '\x1b' not in x] + ['38;5;1', '1;31', '48;2;1;2;3;4']:
@@ -536,6 +550,11 @@ def c18_str_oracle(w, term):
 
 def c18_replay(v, term):
     case = v['case']
+    if 'setting' in case and 'prior' in case:
+        d0 = settings_to_dict(parse_graphic_sequence(list(case['prior']), False)) if case['prior'] else {}
+        snap = {k.name: str(v) for k, v in d0.items()}
+        d1 = {k.name: str(v) for k, v in settings_to_dict([AnsiSetting(case['setting'])], d0).items()}
+        return None if d1 == snap else 'settings_to_dict([AnsiSetting(%r)], %s) gives %s' % (case['setting'], snap, d1)
     if case.get('given as') == 'AnsiStr':
         from ansi_string import AnsiStr as _AnsiStr
         w, ae = case['string'], case['add_erroneous']
